@@ -5,6 +5,9 @@ V = os.path.dirname(os.path.dirname(os.path.abspath(__file__)))
 TECH_CCV = 'contract-based deductive verification: CBMC code contracts (goto-instrument --dfcc) on function text extracted from /repo at check time'
 TECH_RVC = 'contract-based deductive verification: verification conditions generated from clang\'s AST of the real translation unit (own VC generator with forward-mode AD), discharged by exact polynomial normal form and z3'
 CHECKS = {
+ 'C01': dict(engine='RVC', cat='other', tech=TECH_RVC,
+   text='Map_Sphere::Initialize and Map_Sphere::Apply are executed from their AST for every parent count up to the bound, with callee contracts for the boundary condition (proved under C02), the bead getters and the option access: normalised weights w_i/sum(w), force weights (d_i/sum d)/(w_i/sum w), rejection only for w_i = 0 with d_i != 0; position = sum weight_i (r0 + bc(r0, r_i)), velocity, mass, force formulas for every present/absent pattern and every path; rejection iff a parent is farther than half the shortest box height (never silently mapped); translation equivariance, lattice-shift invariance (structural: parent positions reach the outputs only through the boundary condition) and convex hull as consequences. Coordinates, weights and boxes are unbounded; the number of parents is bounded (3 quick / 4 thorough), so every obligation is reported as bounded.',
+   note='Real arithmetic; BCShortestConnection / getShortestBoxDimension by contract (C02), Tokenizer/Property as value sources, std algorithms as models; XML plumbing, csg_map, file formats and Map_Ellipsoid orientation are not decided.', ref='DESIGN.md section 5 C01'),
  'C02': dict(engine='RVC', cat='proof', tech=TECH_RVC,
    text='Contracts on the three BCShortestConnection bodies, BoxVolume, getShortestBoxDimension and Topology::setBox, taken from the property: lattice form with integer coefficients, inside the minimum-image brick, antisymmetry, invariance under whole-box shifts of either point, shortest image (orthorhombic always; reduced triclinic below half the smallest diagonal element), volume = |det|, height = volume / base area, box-type dispatch. Proved for all real inputs on the AST of the real code.',
    note='Assumes real arithmetic; std::round by its contract (nearest integer, odd, integer-shift equivariant); triclinic boxes in the lower-triangular column form the code documents; autoDetectBoxType is not decided.', ref='DESIGN.md section 5 C02'),
